@@ -181,6 +181,7 @@ def coqc_run(name, text, timeout=1200):
     """compile a generated file against the development; returns (rc, output)"""
     d = os.path.join(BUILD, "tmp")
     os.makedirs(d, exist_ok=True)
+    name = "%s_p%d" % (name, os.getpid())          # two checks running at the same time never share a file
     path = os.path.join(d, name + ".v")
     with open(path, "w") as f:
         f.write(text)
@@ -366,6 +367,12 @@ class Ctx:
             outs = list(ex.map(lambda j: coqc_run(j[0], j[1]), jobs))
         for (nm, text, n), (rc, out) in zip(jobs, outs):
             bs = parse_bools(out, "BOOLS") if rc == 0 else None
+            if bs is None or len(bs) != n:
+                # once more, alone (the machine may have been short of memory with 16 evaluations in flight)
+                log("coq evaluation failed for", nm, "- retrying once:", out[-1500:])
+                time.sleep(2)
+                rc, out = coqc_run(nm, text)
+                bs = parse_bools(out, "BOOLS") if rc == 0 else None
             if bs is None or len(bs) != n:
                 log("coq evaluation failed for", nm, out[-3000:])
                 return None
